@@ -83,9 +83,9 @@ extern "C" void harness(void)
     int idx = 0;
     { int p = 0; for(const char *s = LOC; *s; s++) loc[p++] = *s;
 #if KIND == 7
-      idx = nd_range(0, 3); loc[p++] = (char)('0' + idx);
+      idx = IDX; loc[p++] = (char)('0' + idx);   /* element index concrete per query */
 #elif KIND == 8 || KIND == 9
-      idx = nd_range(0, 2); loc[p++] = (char)('0' + idx);
+      idx = IDX; loc[p++] = (char)('0' + idx);
 #endif
       loc[p] = 0; }
     const bool query = QUERY;   /* concrete per query: the type tag string decides the message layout */
